@@ -438,6 +438,7 @@ func executeC11Once(scn *Scenario) *RunResult {
 		}
 	}
 	refBytes, refErr := safeMarshal(twinA)
+	featuresOf(refBytes).probes(res.Counters)
 
 	sim := newSim(scn.Strat, scn.Segs, total)
 	var viol *Violation
